@@ -178,7 +178,8 @@ def audit_one(pid, name, patch, origin):
     return details[0]
 
 
-def strength_audit(pid, workers=1):
+def strength_audit(pid, workers=None):
+    workers = workers or int(os.environ.get("VERIF_AUDIT_WORKERS", "3"))
     muts = _mutants(pid)
     if workers > 1:
         with concurrent.futures.ThreadPoolExecutor(max_workers=workers) as ex:
